@@ -157,7 +157,8 @@ def check_python(report):
     tr = m.func("gapic.schema.wrappers.RoutingParameter._to_regex")
     rets = [n for n in ast.walk(tr.node) if isinstance(n, ast.Return)]
     r.instance("_to_regex anchored")
-    r.check(len(rets) == 1 and pmatch("re.compile(f'^{self._convert_to_regex(_T_)}$')", rets[0].value) is not None, p, tr.node.lineno,
+    from ..pymodel import nmatch as _nmatch
+    r.check(_nmatch(m, "re.compile(f'^{self._convert_to_regex(_ANYT_)}$')", tr, keep={"_convert_to_regex"}) is not None, p, tr.node.lineno,
             ast.unparse(rets[0].value) if rets else "", "the routing regex must be anchored at both ends (^...$): a value that merely starts "
             "with a conforming prefix must not match")
     to = m.func("gapic.schema.wrappers.RoutingParameter.to_regex")
